@@ -207,7 +207,10 @@ def replay_trees(exe, recs, shape, verdict, pid, check_log=True, check_order=Fal
     for i, r in enumerate(recs):
         R = ROOT + "/t%d" % (i % 16)
         t = {"main": r["main"], "drop": r["drop"], "shp": r["shp"]}
-        s, paths = materialise(t, shape, R)
+        pdmap = {(l, n): r["pd"][l - 1][n - 1] for l in range(1, len(r["drop"]) + 1) for n in r["drop"][l - 1]} if r.get("pd") else None
+        if pdmap and len(shape.layout(R)[2]) < 2:
+            pdmap = None
+        s, paths = materialise(t, shape, R, pd=pdmap)
         s = shape.pre(R) + s + shape.call(1, R, cb=True) + ["dump 1", "free 1"] + shape.post()
         cases.append((i, s))
         metas.append((t, paths))
@@ -279,8 +282,8 @@ def nontrivial_tree(r):
     return nfiles >= 2
 
 
-def tree_export(nlay, nameset, maxdrops, shapes, invariants=("LayeredIsUapi", "HistoryFolds"), sample=1, seed=1):
-    consts = {"NLay": nlay, "NameSet": "{" + ",".join(str(n) for n in nameset) + "}", "MaxDrops": maxdrops,
+def tree_export(nlay, nameset, maxdrops, shapes, invariants=("LayeredIsUapi", "HistoryFolds"), sample=1, seed=1, nd=1):
+    consts = {"ND": nd, "NLay": nlay, "NameSet": "{" + ",".join(str(n) for n in nameset) + "}", "MaxDrops": maxdrops,
               "Shapes": "{" + ",".join('"%s"' % s for s in shapes) + "}", "Export": "TRUE"}
     cfg = cfg_text(list(invariants), consts, constraint="ExportCase")
     cfg = cfg.replace("CONSTRAINT ExportCase", "CONSTRAINT Bound\nCONSTRAINT ExportCase")
@@ -324,17 +327,27 @@ def check_c01(exe, tier, seed, verdict):
     nn += sum(1 for x in recs2 if len(x["log"]) >= 2)
     # parameter shapes x covering trees
     cover = rnd.sample(recs, 300) + rnd.sample(recs2, 300)
-    pshapes = ["dotsuffix", "noproject", "config_dirs", "set_conf_dirs"]
+    pshapes = ["dotsuffix", "noproject"]
     for sn in pshapes:
         n += replay_trees(exe, cover, Shape(sn), verdict, "C01")
         evals += len(cover)
+    # drop-in directory LISTS (CONFIG_DIRS option, econf_set_conf_dirs): every drop-in sits in one of two postfix
+    # directories; within a layer the directories are applied in list order
+    r4, recs4, total4 = tree_export(3, [3, 6], 4, ["bb"], nd=2)
+    if r4.violated:
+        verdict.violation("C01:model", {"tlc": r4.out[-3000:]}, "TLC: Read differs from UapiRef with two postfix directories\n" + r4.out[-1500:])
+    states += r4.distinct
+    for sn in ("config_dirs", "set_conf_dirs"):
+        cc4 = recs4 if tier == "thorough" or len(recs4) <= 1500 else rnd.sample(recs4, 1500)
+        n += replay_trees(exe, cc4, Shape(sn), verdict, "C01")
+        evals += len(cc4)
     # shapes that change the tree universe
     for sn, nlay in (("parsing_dirs", 1), ("parsing_dirs", 2), ("parsing_dirs", 4), ("readdirs", 2), ("readdirs_nulldist", 2)):
         if sn == "readdirs_nulldist":
             rr, cc, _ = tree_export(2, [3, 6], 4, ["bb"])
             cc = [x for x in cc if x["main"][0] == "absent" and not x["drop"][0]]
         else:
-            rr, cc, _ = tree_export(nlay, [3, 4, 6] if nlay < 4 else [3, 6], 12, ["bb"])
+            rr, cc, _ = tree_export(nlay, [3, 4, 6] if nlay < 4 else [3, 6], 12 if (nlay < 4 or tier == "thorough") else 4, ["bb"])
         if rr.violated:
             verdict.violation("C01:model", {"tlc": rr.out[-3000:]}, "TLC: Read(tree) differs from UapiRef(tree) (NLay=%d)" % nlay)
         if len(cc) > 600:
@@ -347,7 +360,7 @@ def check_c01(exe, tier, seed, verdict):
     n += replay_trees(exe, nomain, Shape("noname"), verdict, "C01")
     evals += len(nomain)
     # suffix absent: every name counts
-    rs, cs, _ = tree_export(3, [1, 6, 7, 8], 4, ["bb"], invariants=("HistoryFolds",))
+    rs, cs, _ = tree_export(3, [1, 6, 7, 8], 2 if tier == "quick" else 4, ["bb"], invariants=("HistoryFolds",))
     n += replay_nosuffix(exe, cs, verdict)
     evals += len(cs)
     # project and config name both NULL: refused, not crash
